@@ -27,6 +27,7 @@
 #include <string>
 #include <vector>
 #include <set>
+#include <algorithm>
 #include <cstring>
 #include "vh.h"
 
@@ -43,8 +44,8 @@ enum { TM_BOOL = 1 << TC_BOOL, TM_INTS = (1 << TC_INT8) | (1 << TC_INT16) | (1 <
 enum { RS_REMOVED = 0, RS_INLINE1, RS_ARRAY1, RS_ARRAY2, RS_ARRAY3, RS_ARRAY17, RS_ARRAY300, RS_OTHER, NUM_RS };
 static inline const char * RepStateName(int s) { static const char * const n[] = {"removed", "inline1", "array1", "array2", "array3", "array17", "array300", "other"}; return (s >= 0 && s < NUM_RS) ? n[s] : "?"; }
 
-enum { OP_ADD = 0, OP_PREPEND, OP_ADDMULTI, OP_REPLACE, OP_REPLACE_OKADD, OP_REMOVE_AT, OP_REMOVE_LAST, OP_FINDCOPY, OP_ENSUREPRIVATE, OP_COPYNAME, OP_SHARENAME, OP_MOVENAME, OP_RENAME, OP_REORDER, OP_ALIAS, NUM_OP };
-static inline const char * OpName(int o) { static const char * const n[] = {"add", "prepend", "addmulti", "replace", "replace_okadd", "remove_at", "remove_last", "findcopy", "ensureprivate", "copyname", "sharename", "movename", "rename", "reorder", "alias"}; return (o >= 0 && o < NUM_OP) ? n[o] : "?"; }
+enum { OP_ADD = 0, OP_PREPEND, OP_ADDMULTI, OP_REPLACE, OP_REPLACE_OKADD, OP_REMOVE_AT, OP_REMOVE_LAST, OP_FINDCOPY, OP_ENSUREPRIVATE, OP_COPYNAME, OP_SHARENAME, OP_MOVENAME, OP_RENAME, OP_REORDER, OP_ALIAS, OP_SORT, OP_SORT_ONE_ITEM_RANGE, OP_NORMALIZE, OP_FINDCOPY_MESSAGE_BY_VALUE, OP_FINDCOPY_CSTR, OP_MUTATE_REMOVENAME, OP_MUTATE_WHAT, OP_MUTATE_NEWFIELD, OP_MUTATE_ITEMOP, NUM_OP };
+static inline const char * OpName(int o) { static const char * const n[] = {"add", "prepend", "addmulti", "replace", "replace_okadd", "remove_at", "remove_last", "findcopy", "ensureprivate", "copyname", "sharename", "movename", "rename", "reorder", "alias", "sort", "sort_one_item_range", "normalize", "findcopy_message_by_value", "findcopy_cstr", "mutate_removename", "mutate_what", "mutate_newfield", "mutate_itemop"}; return (o >= 0 && o < NUM_OP) ? n[o] : "?"; }
 
 enum { SB_ANY = 0 /* any bytes 1..255 */, SB_UTF8 /* valid UTF-8, 1-3 byte sequences */, SB_ASCII /* printable ASCII */ };
 enum { SIZE_SMALL = 0 /* <= ~200 items, counts <= 8, items <= 40 bytes */, SIZE_NORMAL /* <= ~2500 items, arrays of 17/300, a few KB-sized items */, SIZE_LARGE /* <= ~20000 items */ };
@@ -64,10 +65,12 @@ struct GenOptions {
    int sizeClass;              // SIZE_*
    bool allowSharedFields;     // leave some array fields shared with a scratch Message (kept alive in GenTrace) / aliased inside the Message
    bool reorderFields;         // MoveNameToFront/Back/Position/Before/Behind passes
+   bool extraRoutes;           // further build routes: SortDataInField, GetPointerToNormalizedFieldData, FindMessage by value, FindString(const char *&).
+                               // Off by default: switching it on changes the PRNG draw sequence, i.e. which Messages a given seed produces
    GenOptions() : maxDepth(4), maxTopFields(10), maxSubFields(4), typeMask(TM_ALL), allowNaN(true), allowZeroLengthItems(true), allowEmptyFieldName(true), allowEmptyStrings(true),
-                  allowOddUserTypeCodes(true), nameBytes(SB_ANY), stringBytes(SB_ANY), sizeClass(SIZE_NORMAL), allowSharedFields(true), reorderFields(true) {}
+                  allowOddUserTypeCodes(true), nameBytes(SB_ANY), stringBytes(SB_ANY), sizeClass(SIZE_NORMAL), allowSharedFields(true), reorderFields(true), extraRoutes(false) {}
    // everything constructible (C01)
-   static GenOptions Full() { return GenOptions(); }
+   static GenOptions Full() { GenOptions o; o.extraRoutes = true; return o; }
    // what survives a trip through every codec (C++ Message, C MiniMessage/MicroMessage, Python message.py): no pointer/tag fields,
    // no NaN (a float32 signalling NaN is quieted when Python widens it), UTF-8 strings and names, no 0-byte items, tame user type codes
    static GenOptions CommonCodecRepertoire() { GenOptions o; o.typeMask = TM_FLATTENABLE; o.allowNaN = false; o.allowZeroLengthItems = false; o.allowOddUserTypeCodes = false; o.nameBytes = SB_UTF8; o.stringBytes = SB_UTF8; o.allowSharedFields = false; return o; }
@@ -84,8 +87,9 @@ struct GenTrace {
    uint32_t ops[NUM_OP];
    uint32_t fieldScripts, items, aliases, sharedLeft, zeroLengthItems, nanItems, maxDepthReached, subMessages;
    std::vector<MessageRef> keepAlive;     // scratch Messages that still share an array with the result (live until the trace dies)
+   std::string routeFailKey, routeFailDetail;   // first failed expectation of a build route (sort order, normalized data, ...): a library misbehaviour, for the caller to report
    GenTrace() : wantScript(false) { Clear(); }
-   void Clear() { script.clear(); memset(cells, 0, sizeof(cells)); memset(ops, 0, sizeof(ops)); fieldScripts = items = aliases = sharedLeft = zeroLengthItems = nanItems = maxDepthReached = subMessages = 0; keepAlive.clear(); }
+   void Clear() { script.clear(); memset(cells, 0, sizeof(cells)); memset(ops, 0, sizeof(ops)); fieldScripts = items = aliases = sharedLeft = zeroLengthItems = nanItems = maxDepthReached = subMessages = 0; keepAlive.clear(); routeFailKey.clear(); routeFailDetail.clear(); }
 };
 
 // ---- a user Flattenable with an arbitrary type code: exercises the AddFlat(const T &) idiom of the documentation --------------
@@ -131,6 +135,19 @@ static inline std::string Esc(const std::string & s, size_t maxChars)
    if (s.size() > maxChars) o += ".."; return o;
 }
 
+// bytes of item (i) of a non-Message, non-tag field: FindData(), and for 0-byte buffers (FindData answers B_TYPE_MISMATCH because the
+// buffer's data pointer is NULL) the ByteBuffer itself through FindFlat()
+static inline bool ItemBytes(const Message & m, const String & fn, uint32 t, uint32 i, const void * & p, uint32 & len, status_t * optStatus = NULL)
+{
+   p = NULL; len = 0;
+   const status_t r = m.FindData(fn, t, i, &p, &len);
+   if (optStatus) *optStatus = r;
+   if (r.IsOK()) return true;
+   FlatCountableRef x; if (m.FindFlat(fn, i, x).IsError()) return false;
+   const ByteBuffer * bb = dynamic_cast<const ByteBuffer *>(x()); if (bb == NULL) return false;
+   p = bb->GetBuffer(); len = bb->GetNumBytes(); return true;
+}
+
 // one item value
 struct Value {
    int cls; uint32 tc;
@@ -147,6 +164,13 @@ struct Ctx {
    void Op(int op) { if (t) t->ops[op]++; }
    void Log(const std::string & s) { if (t && t->wantScript && t->script.size() < 3000) { t->script += s; t->script += ' '; } }
 };
+
+// a build route did not do what its documentation says (not a harness precondition): remembered in the trace for the caller's verdict
+static inline void RouteFail(Ctx & c, const std::string & key, const std::string & detail)
+{
+   if (c.t) { if (c.t->routeFailKey.empty()) { c.t->routeFailKey = "route|" + key; c.t->routeFailDetail = detail; } }
+   else vh::viol("route|" + key, detail);
+}
 
 static int gPtrTargets[8];
 static_assert(sizeof(Point) == 8 && sizeof(Rect) == 16 && sizeof(bool) == 1, "msggen assumes Point = 2 floats, Rect = 4 floats, bool = 1 byte in memory");
@@ -294,6 +318,7 @@ static inline status_t Apply(Ctx & c, Message & m, const String & fn, const Valu
    return B_BAD_ARGUMENT;
 }
 
+static inline bool SameStructure(const Message & a, const Message & b, bool skipNonFlattenableInA, std::string & why, std::string & whyKey, int depth);
 // find item (i) of the field and return a copy of it as a Value (typed or generic Find*)
 static inline void FindCopy(Ctx & c, const Message & m, const String & fn, int cls, uint32 tc, uint32 i, Value & v)
 {
@@ -305,8 +330,17 @@ static inline void FindCopy(Ctx & c, const Message & m, const String & fn, int c
    else if (cls == TC_DOUBLE && c.R(2)) { double x = 0; r = m.FindDouble(fn, i, x); memcpy(v.u.b, &x, 8); }
    else if (cls == TC_BOOL && c.R(2)) { bool x = false; r = m.FindBool(fn, i, x); v.u.b[0] = x ? 1 : 0; }
    else if (fx > 0) { const void * p = NULL; uint32 n = 0; r = m.FindData(fn, tc, i, &p, &n); if (r.IsOK()) { if (n != fx || p == NULL) BuildFail("FindData size of a fixed-size item", B_LOGIC_ERROR); memcpy(v.u.b, p, fx); } }
+   else if (cls == TC_STRING && c.o.extraRoutes && c.R(2)) { const char * s = NULL; r = m.FindString(fn, i, s); if (r.IsOK()) { if (s == NULL) BuildFail("FindString(const char *&) gave NULL", B_LOGIC_ERROR); v.bytes.assign(s); c.Op(OP_FINDCOPY_CSTR); } }
    else if (cls == TC_STRING) { String s; r = m.FindString(fn, i, s); if (r.IsOK()) v.bytes.assign(s(), s.Length()); }
    else if (cls == TC_RAW || cls == TC_USER) { FlatCountableRef fc; r = m.FindFlat(fn, i, fc); if (r.IsOK()) { const ByteBuffer * bb = dynamic_cast<const ByteBuffer *>(fc()); if (bb == NULL) BuildFail("FindFlat on a raw field did not give a ByteBuffer", B_LOGIC_ERROR); if (bb->GetNumBytes()) v.bytes.assign((const char *)bb->GetBuffer(), bb->GetNumBytes()); } }
+   else if (cls == TC_MESSAGE && c.o.extraRoutes && c.R(2)) {   // copy out by value, re-insert the copy
+      Message byValue(12345); (void)byValue.AddInt32("previous content", 1); r = m.FindMessage(fn, i, byValue);
+      if (r.IsOK()) {
+         ConstMessageRef orig; std::string why, key; if (m.FindMessage(fn, i, orig).IsError() || orig() == NULL) BuildFail("FindMessage(ConstMessageRef)", B_LOGIC_ERROR);
+         if (!SameStructure(*orig(), byValue, false, why, key, 0)) RouteFail(c, "findmessage-by-value|" + key, "FindMessage(name, index, Message &) gave a different Message: " + why);
+         v.msg = GetMessageFromPool(byValue); if (v.msg() == NULL) BuildFail("GetMessageFromPool(const Message &)", B_OUT_OF_MEMORY); c.Op(OP_FINDCOPY_MESSAGE_BY_VALUE);
+      }
+   }
    else if (cls == TC_MESSAGE) { r = m.FindMessage(fn, i, v.msg); }
    else if (cls == TC_POINTER) { void * p = NULL; r = m.FindPointer(fn, i, p); v.ptr = p; }
    else if (cls == TC_TAG) { r = m.FindTag(fn, i, v.tag); }
@@ -321,6 +355,10 @@ static inline void CheckField(const Message & m, const Field & f, const char * a
    uint32 t = 0, n = 0; const status_t r = m.GetInfo(f.name.c_str(), &t, &n);
    if (f.n == 0) { if (r.IsOK()) BuildFail(std::string("field still present after its last item was removed, after ") + after, B_LOGIC_ERROR); }
    else if (r.IsError() || t != f.tc || n != f.n) BuildFail(vh::fmt("field '%s' has type %08x count %u after %s, the script expects type %08x count %u", Esc(f.name, 20).c_str(), t, n, after, f.tc, f.n), r);
+   // the other accessors of the same facts must agree
+   const uint32 ft = m.GetFieldTypeForName(f.name.c_str(), 0x6e6f6e65 /* 'none' */), nv = m.GetNumValuesInName(f.name.c_str(), f.tc), nvAny = m.GetNumValuesInName(f.name.c_str());
+   if (ft != (f.n ? f.tc : 0x6e6f6e65u) || nv != f.n || nvAny != f.n || m.HasName(f.name.c_str(), f.tc) != (f.n > 0) || m.HasName(f.name.c_str()) != (f.n > 0))
+      BuildFail(vh::fmt("GetFieldTypeForName %08x / GetNumValuesInName %u,%u / HasName disagree with GetInfo (type %08x count %u) after %s", ft, nv, nvAny, f.tc, f.n, after), B_LOGIC_ERROR);
 }
 
 static inline std::string FreshName(Ctx & c, std::set<std::string> & used)
@@ -374,12 +412,96 @@ static inline void OpRemove(Ctx & c, Message & m, Field & f)
    f.n--; if (f.n == 0) f.arr = false;
    CheckField(m, f, "remove");
 }
+// ---- further build routes (GenOptions::extraRoutes) -------------------------------------------------------------------------------
+static inline bool SnapshotItems(const Message & m, const String & fn, uint32 t, uint32 n, std::vector<std::string> & out)
+{
+   out.clear();
+   for (uint32 i = 0; i < n; i++) { const void * p = NULL; uint32 len = 0; if (!ItemBytes(m, fn, t, i, p, len)) return false; out.push_back(std::string((const char *)p, len)); }
+   return true;
+}
+// the default comparator of each value-ordered item type, on the in-memory item bytes (strings: with their NUL)
+struct ItemLess {
+   int cls; explicit ItemLess(int c) : cls(c) {}
+   bool operator()(const std::string & a, const std::string & b) const {
+      switch (cls) {
+      case TC_BOOL: return (a[0] != 0) < (b[0] != 0);
+      case TC_INT8: return (int8_t)a[0] < (int8_t)b[0];
+      case TC_INT16: { int16_t x, y; memcpy(&x, a.data(), 2); memcpy(&y, b.data(), 2); return x < y; }
+      case TC_INT32: { int32_t x, y; memcpy(&x, a.data(), 4); memcpy(&y, b.data(), 4); return x < y; }
+      case TC_INT64: { int64_t x, y; memcpy(&x, a.data(), 8); memcpy(&y, b.data(), 8); return x < y; }
+      case TC_DOUBLE: { double x, y; memcpy(&x, a.data(), 8); memcpy(&y, b.data(), 8); return x < y; }
+      case TC_FLOAT: case TC_POINT: case TC_RECT: { const int k = (int)(a.size() / 4); for (int i = 0; i < k; i++) { float x, y; memcpy(&x, a.data() + 4 * i, 4); memcpy(&y, b.data() + 4 * i, 4); if (x < y) return true; if (x > y) return false; } return false; }
+      case TC_STRING: return strcmp(a.c_str(), b.c_str()) < 0;
+      }
+      return false;
+   }
+};
+static inline bool ItemsHaveNaN(int cls, const std::vector<std::string> & v)
+{
+   for (size_t i = 0; i < v.size(); i++) {
+      if (cls == TC_DOUBLE) { uint64_t b; memcpy(&b, v[i].data(), 8); if (IsNaN64(b)) return true; }
+      else if (cls == TC_FLOAT || cls == TC_POINT || cls == TC_RECT) for (size_t k = 0; k + 4 <= v[i].size(); k += 4) { uint32_t b; memcpy(&b, v[i].data() + k, 4); if (IsNaN32(b)) return true; }
+   }
+   return false;
+}
+// SortDataInField(): "Sorts the data-items within a specified field using the default comparator for the field's type", [from, to), stable
+// (Queue::Sort).  Expected order = std::stable_sort of the items read before.  Fields whose default comparator looks at addresses (raw,
+// user, Message, pointer, tag) or holds a NaN get a one-item range, which must change nothing.
+static inline void OpSort(Ctx & c, Message & m, Field & f)
+{
+   const String fn(f.name.c_str());
+   const bool byValue = (f.cls <= TC_RECT);   // bool, ints, float, double, string, point, rect
+   std::vector<std::string> before, after;
+   const bool readable = (f.cls != TC_MESSAGE && f.cls != TC_TAG);
+   if (readable && !SnapshotItems(m, fn, f.tc, f.n, before)) BuildFail("reading the items before a sort", B_LOGIC_ERROR);
+   uint32 from = 0, to = MUSCLE_NO_LIMIT; bool whole = false;
+   if (!byValue || ItemsHaveNaN(f.cls, before)) { from = c.R(f.n); to = from + 1; c.Op(OP_SORT_ONE_ITEM_RANGE); }
+   else { if (c.R(2)) whole = true; else { from = c.R(f.n); to = from + c.R(f.n - from + 2); } c.Op(OP_SORT); }
+   c.Log(whole ? "so" : vh::fmt("so%u-%u", from, to));
+   if (whole) m.SortDataInField(fn); else m.SortDataInField(fn, from, to);
+   CheckField(m, f, "SortDataInField");
+   if (!readable) return;
+   if (!SnapshotItems(m, fn, f.tc, f.n, after)) BuildFail("reading the items after a sort", B_LOGIC_ERROR);
+   const uint32 end = (to > f.n) ? f.n : to;
+   if (byValue && end > from) std::stable_sort(before.begin() + from, before.begin() + end, ItemLess(f.cls));
+   for (uint32 i = 0; i < f.n; i++) if (before[i] != after[i]) {
+      RouteFail(c, std::string("sort|") + TypeClassName(f.cls), vh::fmt("SortDataInField(%u, %u) on %u %s items: item %u is ", from, to, f.n, TypeClassName(f.cls), i) + vh::hex(after[i].data(), after[i].size(), 24) + ", a stable sort of the previous items puts " + vh::hex(before[i].data(), before[i].size(), 24) + " there");
+      break;
+   }
+}
+// GetPointerToNormalizedFieldData(): "Ensures that the data items held in (field) are stored as a contiguous array in memory, and then
+// returns a pointer to the beginning of the array"; retItemCount = number of items.  Items themselves must be unchanged.
+static inline void OpNormalize(Ctx & c, Message & m, Field & f)
+{
+   const String fn(f.name.c_str()); c.Op(OP_NORMALIZE); c.Log("nz");
+   std::vector<std::string> before, after; const bool readable = (f.cls != TC_MESSAGE && f.cls != TC_TAG);
+   if (readable && !SnapshotItems(m, fn, f.tc, f.n, before)) BuildFail("reading the items before GetPointerToNormalizedFieldData", B_LOGIC_ERROR);
+   uint32 cnt = 0xdeadbeef; const uint8 * base = (const uint8 *)m.GetPointerToNormalizedFieldData(fn, &cnt, c.R(2) ? f.tc : (uint32)B_ANY_TYPE);
+   CheckField(m, f, "GetPointerToNormalizedFieldData");
+   if (base == NULL || cnt != f.n) { RouteFail(c, "normalize|pointer-or-count", vh::fmt("GetPointerToNormalizedFieldData on a %s field of %u items: pointer %s, count %u", TypeClassName(f.cls), f.n, base ? "non-NULL" : "NULL", cnt)); return; }
+   if (m.GetPointerToNormalizedFieldData(fn, NULL, f.tc == B_INT32_TYPE ? (uint32)B_INT64_TYPE : (uint32)B_INT32_TYPE) != NULL) { RouteFail(c, "normalize|wrong-type-accepted", "GetPointerToNormalizedFieldData with another type code gave a pointer"); return; }
+   if (!readable) return;
+   if (!SnapshotItems(m, fn, f.tc, f.n, after)) BuildFail("reading the items after GetPointerToNormalizedFieldData", B_LOGIC_ERROR);
+   const uint32 fx = FixedSizeOf(f.cls);
+   for (uint32 i = 0; i < f.n; i++) {
+      if (before[i] != after[i]) { RouteFail(c, std::string("normalize|items-changed|") + TypeClassName(f.cls), vh::fmt("item %u of %u changed by GetPointerToNormalizedFieldData", i, f.n)); return; }
+      if (fx > 0) {
+         // fixed-size items: the array is the items back to back, and FindData / FindDataPointer now point into it
+         const void * p = NULL; void * q = NULL; uint32 l1 = 0, l2 = 0;
+         if (m.FindData(fn, f.tc, i, &p, &l1).IsError() || m.FindDataPointer(fn, f.tc, i, &q, &l2).IsError() || p != q || l1 != fx || l2 != fx) { RouteFail(c, "normalize|finddatapointer", "FindData and FindDataPointer disagree"); return; }
+         if (memcmp(base + (size_t)i * fx, before[i].data(), fx) != 0 || p != (const void *)(base + (size_t)i * fx)) { RouteFail(c, std::string("normalize|not-contiguous|") + TypeClassName(f.cls), vh::fmt("item %u of %u is not at offset %u of the returned array", i, f.n, i * fx)); return; }
+      }
+   }
+}
+
 // operations that leave count and representation state as they are
 static inline void OpNeutral(Ctx & c, Message & m, Field & f, int depth, std::set<std::string> & used)
 {
    if (f.n == 0) return;
    const String fn(f.name.c_str()); status_t r; const char * what = "?";
-   switch (c.R(9)) {
+   switch (c.R(c.o.extraRoutes ? 12 : 9)) {
+   case 9: case 10: OpSort(c, m, f); return;
+   case 11: OpNormalize(c, m, f); return;
    case 0: case 1: { Value v; MakeValue(c, v, f.cls, f.tc, depth, f.n > 8); const uint32 i = c.R(f.n); r = Apply(c, m, fn, v, M_REPLACE, i, c.R(4) == 0); what = "replace-at"; c.Op(OP_REPLACE); c.Log(vh::fmt("rp%u", i)); } break;
    case 2: r = m.EnsureFieldIsPrivate(fn); what = "EnsureFieldIsPrivate"; c.Op(OP_ENSUREPRIVATE); c.Log("ep"); break;
    case 3: {   // copy out (and sometimes back in, which moves the field to the end of the order and replaces the original by its copy)
@@ -520,6 +642,47 @@ static inline void AddFieldInState(vh::Rng & rng, const GenOptions & opts, Messa
    GenField(c, m, 0, false, used, cls, state, &name);
 }
 
+// ---- mutation of an existing Message (a copy, a lightweight copy, a parsed Message ...) through the public API ---------------------
+enum { MUT_PRIVATE_FIRST = 1,   // EnsureFieldIsPrivate() before every item-level operation: the documented idiom for a field that may be shared
+       MUT_SHARED_ITEMS = 2 };  // only add / prepend / remove / replace / sort on fields of >= 2 items (certainly array objects), without
+                                // EnsureFieldIsPrivate: documented to show through every Message that shares the field (lightweight copies)
+static inline bool FieldOf(const Message & m, const std::string & name, Field & f)
+{
+   uint32 t = 0, n = 0; if (m.GetInfo(name.c_str(), &t, &n).IsError()) return false;
+   f.name = name; f.tc = t; f.cls = ClassOfTypeCode(t); f.n = n; f.arr = (n >= 2); return true;
+}
+static inline void MutateMessage(vh::Rng & rng, const GenOptions & opts, Message & m, int flags, GenTrace * trace = NULL)
+{
+   Ctx c(rng, opts, trace); c.nameCounter = 5000; c.nanOK = opts.allowNaN && rng.R(4) == 0; c.budget = 400;
+   const int depth = opts.maxDepth > 0 ? opts.maxDepth - 1 : 0;   // new Message items are leaves
+   std::set<std::string> used;
+   for (MessageFieldNameIterator it = m.GetFieldNameIterator(); it.HasData(); it++) used.insert(std::string(it.GetFieldName()()));
+   c.Log("mutate:");
+   for (uint32_t k = 1 + c.R(5); k > 0; k--) {
+      std::vector<std::string> names; for (MessageFieldNameIterator it = m.GetFieldNameIterator(); it.HasData(); it++) names.push_back(std::string(it.GetFieldName()()));
+      uint32_t r = c.R(10); if (flags & MUT_SHARED_ITEMS) r = c.R(6);
+      Field f; const bool have = !names.empty() && FieldOf(m, names[c.R((uint32_t)names.size())], f);
+      if (r < 6) {
+         if (!have) continue;
+         if ((flags & MUT_SHARED_ITEMS) && f.n < 2) continue;
+         if ((flags & MUT_PRIVATE_FIRST) && m.EnsureFieldIsPrivate(f.name.c_str()).IsError()) BuildFail("EnsureFieldIsPrivate before a mutation", B_LOGIC_ERROR);
+         c.Op(OP_MUTATE_ITEMOP);
+         switch (c.R(6)) {
+         case 0: OpAdd(c, m, f, depth, f.n > 8, M_ADD); break;
+         case 1: OpAdd(c, m, f, depth, f.n > 8, M_PREPEND); break;
+         case 2: if (!(flags & MUT_SHARED_ITEMS) || f.n >= 3) OpRemove(c, m, f); break;
+         case 3: { Value v; MakeValue(c, v, f.cls, f.tc, depth, f.n > 8); const uint32 i = c.R(f.n); const status_t st = Apply(c, m, f.name.c_str(), v, M_REPLACE, i, false); if (st.IsError()) BuildFail("replace-at in a mutation", st); c.Op(OP_REPLACE); c.Log(vh::fmt("rp%u", i)); CheckField(m, f, "replace-at"); } break;
+         case 4: if (flags & MUT_SHARED_ITEMS) OpSort(c, m, f); else OpFindCopy(c, m, f); break;
+         default: if (flags & MUT_SHARED_ITEMS) OpSort(c, m, f); else OpNeutral(c, m, f, depth, used); break;
+         }
+      }
+      else if (r == 6) { GenField(c, m, depth, false, used); c.Op(OP_MUTATE_NEWFIELD); }
+      else if (r == 7) { if (!have) continue; if (m.RemoveName(f.name.c_str()).IsError()) BuildFail("RemoveName in a mutation", B_LOGIC_ERROR); c.Op(OP_MUTATE_REMOVENAME); c.Log("rmname"); }
+      else if (r == 8) { m.what = (uint32)c.g.next(); c.Op(OP_MUTATE_WHAT); c.Log("what"); }
+      else { if (!have) continue; if ((flags & MUT_PRIVATE_FIRST) && m.EnsureFieldIsPrivate(f.name.c_str()).IsError()) BuildFail("EnsureFieldIsPrivate before a mutation", B_LOGIC_ERROR); OpNeutral(c, m, f, depth, used); }
+   }
+}
+
 // ---- scans --------------------------------------------------------------------------------------------------------------
 static inline bool ContainsNaN(const Message & m)
 {
@@ -583,31 +746,14 @@ static inline std::string DescribeMessage(const Message & m, size_t maxLen = 440
 // in the same order, same type codes, same counts, identical item bytes, recursively.  With skipNonFlattenableInA, pointer and tag
 // fields of (a) are skipped and (b) must not contain any (b is what came back from the wire).  On a difference: (why) = readable
 // witness, (whyKey) = stable classifier.
-// bytes of item (i) of a non-Message, non-tag field: FindData(), and for 0-byte buffers (FindData answers B_TYPE_MISMATCH because the
-// buffer's data pointer is NULL) the ByteBuffer itself through FindFlat()
-static inline bool ItemBytes(const Message & m, const String & fn, uint32 t, uint32 i, const void * & p, uint32 & len, status_t * optStatus = NULL)
-{
-   p = NULL; len = 0;
-   const status_t r = m.FindData(fn, t, i, &p, &len);
-   if (optStatus) *optStatus = r;
-   if (r.IsOK()) return true;
-   FlatCountableRef x; if (m.FindFlat(fn, i, x).IsError()) return false;
-   const ByteBuffer * bb = dynamic_cast<const ByteBuffer *>(x()); if (bb == NULL) return false;
-   p = bb->GetBuffer(); len = bb->GetNumBytes(); return true;
-}
 static inline bool IsNonFlat(uint32 t) { return t == B_POINTER_TYPE || t == B_TAG_TYPE; }
-static inline bool SameStructure(const Message & a, const Message & b, bool skipNonFlattenableInA, std::string & why, std::string & whyKey, int depth = 0)
+// one field of (a) against one field of (b) (the names may differ): type code, item count, item bytes, recursively
+static inline bool SameField(const Message & a, const String & fa, const Message & b, const String & fb, bool skipNonFlattenableInA, std::string & why, std::string & whyKey, int depth = 0)
 {
-   if (a.what != b.what) { why = vh::fmt("what code %08x vs %08x (depth %d)", a.what, b.what, depth); whyKey = "what"; return false; }
-   MessageFieldNameIterator ia = a.GetFieldNameIterator(), ib = b.GetFieldNameIterator();
-   for (;;) {
-      while (skipNonFlattenableInA && ia.HasData()) { uint32 t = 0; (void)a.GetInfo(ia.GetFieldName(), &t); if (IsNonFlat(t)) ia++; else break; }
-      if (!ia.HasData() || !ib.HasData()) break;
-      const String & fa = ia.GetFieldName(); const String & fb = ib.GetFieldName();
-      uint32 ta = 0, tb = 0, na = 0, nb = 0;
-      if (a.GetInfo(fa, &ta, &na).IsError() || b.GetInfo(fb, &tb, &nb).IsError()) { why = "GetInfo fails on an iterated field name"; whyKey = "getinfo"; return false; }
-      if (skipNonFlattenableInA && IsNonFlat(tb)) { why = "non-flattenable field '" + Esc(fb(), 20) + "' present after the trip"; whyKey = "nonflattenable-present"; return false; }
-      if (fa.Length() != fb.Length() || memcmp(fa(), fb(), fa.Length()) != 0) { why = vh::fmt("field order/name at depth %d: '", depth) + Esc(fa(), 30) + "' vs '" + Esc(fb(), 30) + "'"; whyKey = "field-order-or-name"; return false; }
+   uint32 ta = 0, tb = 0, na = 0, nb = 0;
+   const bool ha = a.GetInfo(fa, &ta, &na).IsOK(), hb = b.GetInfo(fb, &tb, &nb).IsOK();
+   if (ha != hb) { why = "field '" + Esc(ha ? fa() : fb(), 20) + "' exists in one Message only"; whyKey = "field-presence"; return false; }
+   if (!ha) return true;
       if (ta != tb) { why = "type code of '" + Esc(fa(), 20) + vh::fmt("': %08x vs %08x", ta, tb); whyKey = "type-code"; return false; }
       if (na != nb) { why = std::string(TypeCodeName(ta)) + " field '" + Esc(fa(), 20) + vh::fmt("': %u items vs %u", na, nb); whyKey = std::string("item-count|") + TypeCodeName(ta); return false; }
       if (na == 0) { why = "field '" + Esc(fa(), 20) + "' with zero items"; whyKey = "zero-item-field"; return false; }
@@ -631,6 +777,21 @@ static inline bool SameStructure(const Message & a, const Message & b, bool skip
             }
          }
       }
+   return true;
+}
+static inline bool SameStructure(const Message & a, const Message & b, bool skipNonFlattenableInA, std::string & why, std::string & whyKey, int depth)
+{
+   if (a.what != b.what) { why = vh::fmt("what code %08x vs %08x (depth %d)", a.what, b.what, depth); whyKey = "what"; return false; }
+   MessageFieldNameIterator ia = a.GetFieldNameIterator(), ib = b.GetFieldNameIterator();
+   for (;;) {
+      while (skipNonFlattenableInA && ia.HasData()) { uint32 t = 0; (void)a.GetInfo(ia.GetFieldName(), &t); if (IsNonFlat(t)) ia++; else break; }
+      if (!ia.HasData() || !ib.HasData()) break;
+      const String & fa = ia.GetFieldName(); const String & fb = ib.GetFieldName();
+      uint32 ta = 0, tb = 0, na = 0, nb = 0;
+      if (a.GetInfo(fa, &ta, &na).IsError() || b.GetInfo(fb, &tb, &nb).IsError()) { why = "GetInfo fails on an iterated field name"; whyKey = "getinfo"; return false; }
+      if (skipNonFlattenableInA && IsNonFlat(tb)) { why = "non-flattenable field '" + Esc(fb(), 20) + "' present after the trip"; whyKey = "nonflattenable-present"; return false; }
+      if (fa.Length() != fb.Length() || memcmp(fa(), fb(), fa.Length()) != 0) { why = vh::fmt("field order/name at depth %d: '", depth) + Esc(fa(), 30) + "' vs '" + Esc(fb(), 30) + "'"; whyKey = "field-order-or-name"; return false; }
+      if (!SameField(a, fa, b, fb, skipNonFlattenableInA, why, whyKey, depth)) return false;
       ia++; ib++;
    }
    while (skipNonFlattenableInA && ia.HasData()) { uint32 t = 0; (void)a.GetInfo(ia.GetFieldName(), &t); if (IsNonFlat(t)) ia++; else break; }
@@ -638,6 +799,8 @@ static inline bool SameStructure(const Message & a, const Message & b, bool skip
    if (ib.HasData()) { why = vh::fmt("depth %d: extra field '", depth) + Esc(ib.GetFieldName()(), 30) + "' in the second Message"; whyKey = "field-extra"; return false; }
    return true;
 }
+
+static inline bool SameStructure(const Message & a, const Message & b, bool skipNonFlattenableInA, std::string & why, std::string & whyKey) { return SameStructure(a, b, skipNonFlattenableInA, why, whyKey, 0); }
 
 }  // namespace msggen
 #endif
